@@ -5,6 +5,7 @@ package zzverif
 
 import (
 	"fmt"
+	ppb "github.com/google/fhir/go/proto/google/fhir/proto/r4/core/resources/patient_go_proto"
 	"go/scanner"
 	"go/token"
 	"os"
@@ -33,7 +34,7 @@ type c01Opts struct {
 	Compile int  `json:"copt"`  // 0 none 1 experimental 2 permissive 3 addfunction 4 experimental twice 5 bad addfunction
 	Vars    bool `json:"vars"`  // supply the standard variables
 	Time    bool `json:"time"`  // OverrideTime
-	Input   int  `json:"input"` // 0 fixture patient 1 nil slice 2 empty slice 3 fixture + generated 4 generated only
+	Input   int  `json:"input"` // 0 fixture patient 1 nil slice 2 empty slice 3 fixture + generated 4 generated only 5 hostile fixture
 }
 
 func c01CompileOpts(k int) []fhirpath.CompileOption {
@@ -83,6 +84,9 @@ func c01Exec(src string, o c01Opts, extra []fhir.Resource) (pan, stack string, c
 		input = append([]fhir.Resource{pat}, extra...)
 	case 4:
 		input = extra
+	case 5:
+		input = []fhir.Resource{c01HostilePatient()}
+		pat = input[0].(*ppb.Patient)
 	}
 	var eopts []fhirpath.EvaluateOption
 	if o.Vars {
@@ -151,8 +155,31 @@ func c01Exec(src string, o c01Opts, extra []fhir.Resource) (pan, stack string, c
 	return "", "", true, evalErr
 }
 
+// c01HostilePatient: the fixture Patient with contents no constructor produces but the wire
+// format can carry: enum numbers outside the declared values (proto3 enums are open),
+// temporal elements without precision and time zone, empty choice wrappers, an empty
+// reference, an extension without a value.  Evaluation may fail on it; it must not crash.
+func c01HostilePatient() *ppb.Patient {
+	p := fixturePatient()
+	p.Gender = &ppb.Patient_GenderCode{Value: 99}
+	if len(p.Name) > 1 {
+		p.Name[0].Use = &dtpb.HumanName_UseCode{Value: -1}
+		p.Name[1].Period = &dtpb.Period{Start: &dtpb.DateTime{ValueUs: 1}, End: &dtpb.DateTime{}}
+	}
+	if len(p.Telecom) > 0 {
+		p.Telecom[0].System = &dtpb.ContactPoint_SystemCode{Value: 1000}
+	}
+	p.BirthDate = &dtpb.Date{ValueUs: 86400e6 * 365}
+	p.Deceased = &ppb.Patient_DeceasedX{}
+	p.MultipleBirth = &ppb.Patient_MultipleBirthX{}
+	p.ManagingOrganization = &dtpb.Reference{}
+	p.Extension = append(p.Extension, &dtpb.Extension{Url: &dtpb.Uri{Value: "http://example.org/empty"}, Value: &dtpb.Extension_ValueX{}}, &dtpb.Extension{})
+	p.Meta = &dtpb.Meta{LastUpdated: &dtpb.Instant{}}
+	return p
+}
+
 func c01GenOpts(s Src) c01Opts {
-	return c01Opts{Compile: pickOne(s, []int{0, 0, 0, 1, 2, 3, 4, 5}), Vars: s.Prob(85), Time: s.Prob(30), Input: pickOne(s, []int{0, 0, 0, 0, 1, 2, 3, 4})}
+	return c01Opts{Compile: pickOne(s, []int{0, 0, 0, 1, 2, 3, 4, 5}), Vars: s.Prob(85), Time: s.Prob(30), Input: pickOne(s, []int{0, 0, 0, 0, 1, 2, 3, 4, 5, 5})}
 }
 
 // ---------------------------------------------------------------------------
@@ -751,7 +778,7 @@ func c01RunRes(ctx *Ctx, c c01ResCase) {
 
 func TestC01(t *testing.T) {
 	r := newRec("C01",
-		"five generators: (resource-paths) operators, type tests and functions applied to pairs of element paths of a generated resource of any R4 type; (programs) typed-ish random expression trees over every operator and table function with boundary leaves, compiled under a random option set and evaluated on the fixture Patient / nil / empty / generated resources, results pushed through EvaluateAs* and Collection.To*; (fn-matrix) every table function × arity in [Min-1, Max+1] × boundary receiver × boundary arguments; (mutants) byte-mutated sources (1..8 edits incl. hostile tokens) of generated programs and of the repository's own test expressions; (patch) add/insert/delete/replace/move × tree paths and odd paths × right/sibling/wrong/nil values × boundary indexes × nil resource.  non-trivial = the source compiled and contains an operator or invocation (programs, fn-matrix), the mutant is non-blank (mutants), the resource is non-nil (patch); distinct = FNV-64 of (source/arguments, option set)",
+		"five generators: (resource-paths) operators, type tests and functions applied to pairs of element paths of a generated resource of any R4 type; (programs) typed-ish random expression trees over every operator and table function with boundary leaves, compiled under a random option set and evaluated on the fixture Patient / nil / empty / generated resources / a hostile Patient (undeclared enum numbers, temporal elements without precision, empty choice wrappers and references), results pushed through EvaluateAs* and Collection.To*; (fn-matrix) every table function × arity in [Min-1, Max+1] × boundary receiver × boundary arguments; (mutants) byte-mutated sources (1..8 edits incl. hostile tokens) of generated programs and of the repository's own test expressions; (patch) add/insert/delete/replace/move × tree paths and odd paths × right/sibling/wrong/nil values × boundary indexes × nil resource.  non-trivial = the source compiled and contains an operator or invocation (programs, fn-matrix), the mutant is non-blank (mutants), the resource is non-nil (patch); distinct = FNV-64 of (source/arguments, option set)",
 		"nil entries inside the input slice, nil option values and typed-nil elements are outside the domain", "a hang is a case still running after 30 s (observed cases take < 5 ms)")
 	runProperty(t, r,
 		Stage[c01FnCase]{Name: "fn-matrix", Gen: c01GenFn, Run: c01RunFn, N: pick(12000, 250000)},
